@@ -18,6 +18,7 @@ use std::task::{Context, Poll, Waker};
 type Sub = Subscriber<Val, AsyncLock>;
 enum Res {
     Text(String),
+    NewSub(Sub),
     W(ObservableWriteGuard<'static, Val, AsyncLock>),
     R(ObservableReadGuard<'static, Val, AsyncLock>),
 }
@@ -72,6 +73,11 @@ impl World {
                     Res::W(g) => {
                         slot.wguard = Some(g);
                         ("W".into(), None)
+                    }
+                    Res::NewSub(sub) => {
+                        self.subs.push(Some(sub));
+                        let t = format!("#{}", self.subs.len() - 1);
+                        (t, self.spec.step("subscribe", &[]).map(|x| x.0))
                     }
                     Res::R(g) => {
                         let t = format!("R={}", show(*g));
@@ -209,6 +215,7 @@ pub fn run_line(line: &str, out: &mut String) {
                     (None, Res::Text("()".into()))
                 }));
             }
+            "subscribe" => slot.fut = Some(Box::pin(async move { (None, Res::NewSub(ob.subscribe().await)) })),
             "write" => slot.fut = Some(Box::pin(async move { (None, Res::W(ob.write().await)) })),
             "read" => slot.fut = Some(Box::pin(async move { (None, Res::R(ob.read().await)) })),
             "next_now" | "next" | "next_ref" | "stream" => {
